@@ -19,7 +19,9 @@ MOTOR_STATES = [(m1, m2, mode) for m1 in (False, True) for m2 in (False, True)
 REQ = list(range(-1, 8))
 NICKS = ["Axi", " Axi ", "A B", "0123456789abcdef", "", "   ", "x",
          # names that begin with the characters of the reply header ("QT,") itself
-         "Tina", "Quill", "QT-3", "QT", "Q", "T", "TQ", ",lead", "qt", "A,B"]
+         "Tina", "Quill", "QT-3", "QT", "Q", "T", "TQ", ",lead", "qt", "A,B",
+         # interior runs of blanks / a tab (the nickname is free text)
+         "Pen  Plotter", "Lab\tUnit 3", " Rm  12  N "]
 
 
 def clamp(res):
@@ -278,7 +280,7 @@ def run(ctx):
                 "values at four overlapping slots, single bytes at seven slots) checked against a "
                 "model RAM after every step; motors: all 20 board motor states (installed directly and reached via "
                 "library calls) x (r1,r2) in -1..7 squared, then depth-2/3 chains; nicknames: "
-                "17 x 17 prior/written (incl. names starting with the reply header characters); non-trivial = negative or >= 2^24 values, overlapping "
+                "20 x 20 prior/written (incl. names starting with the reply header characters); non-trivial = negative or >= 2^24 values, overlapping "
                 "slots, every motor and nickname history",
         "samples": core.rotate(part.samples, ctx.seed, 4),
         "int32_values": len(values),
